@@ -15,6 +15,10 @@ the operands that ARE evaluated, the selected index).
 * `allCases`     - `selectAllCases` / `examine`: every predicate in order (when the result is consumed)
 * `switchCase`   - `case.switchCase(a0, a1, ..)`: the receiver, then only the selected argument
 * `coalesce`     - arguments in order until one is not null
+* `defCalls`     - `def(f, body) -> [slot, slot, ..]`: the body of a function made by `def` (a lazily passed
+                   expression kept as a callable) is evaluated at EVERY call `f()` - `slots` says which slots are
+                   calls of `f` (true) and which are the next of the other expressions (false); defining `f`
+                   evaluates nothing
 -/
 namespace Yaql.EvalOrder
 
@@ -30,6 +34,7 @@ inductive X where
   | allCases (preds : List X)
   | switchCase (case : X) (sel : Option Nat) (args : List X)
   | coalesce (args : List X) (isNull : List Bool)
+  | defCalls (body : X) (slots : List Bool) (others : List X)
 deriving Repr, Inhabited
 
 /-- operands in order until the first one whose flag is set (inclusive) -/
@@ -46,6 +51,14 @@ def switchTrace : List (List Nat) → List Bool → List (List Nat) → List Nat
   | c :: cs, t :: ts, [] => if t then c else c ++ switchTrace cs ts []
   | c :: cs, [], [] => c ++ switchTrace cs [] []
 
+/-- the slots of `def(f, body) -> [..]` left to right: a call of `f` evaluates the body, another slot its own
+    expression -/
+def callsTrace (body : List Nat) : List Bool → List (List Nat) → List Nat
+  | [], _ => []
+  | true :: ps, os => body ++ callsTrace body ps os
+  | false :: ps, o :: os => o ++ callsTrace body ps os
+  | false :: ps, [] => callsTrace body ps []
+
 mutual
 def trace : X → List Nat
   | .leaf => []
@@ -59,6 +72,7 @@ def trace : X → List Nat
   | .allCases ps => (traces ps).flatten
   | .switchCase c sel as => trace c ++ (match sel with | some i => (traces as).getD i [] | none => [])
   | .coalesce as nulls => untilFlag (traces as) (nulls.map not)
+  | .defCalls b slots os => callsTrace (trace b) slots (traces os)
 def traces : List X → List (List Nat)
   | [] => []
   | x :: r => trace x :: traces r
@@ -84,6 +98,7 @@ def probes : X → List Nat
   | .allCases ps => (probesL ps).flatten
   | .switchCase c _ as => probes c ++ (probesL as).flatten
   | .coalesce as _ => (probesL as).flatten
+  | .defCalls b _ os => probes b ++ (probesL os).flatten
 def probesL : List X → List (List Nat)
   | [] => []
   | x :: r => probes x :: probesL r
